@@ -25,6 +25,27 @@ STRENGTHENED = {
     "C10-3": "C10 generator: freshness during a search (facts with variables inside structures, exact reference oracle)",
     "C19-4": "C19 term generator: atoms with inner hyphens, spaces, capitals, leading digits",
     "C22-3": "C22 generator: the stop-flag protocol step by step (timers of earlier queries firing later)",
+    # round 4
+    "C08-4": "C08 generator: through the solver - facts with fresh variables inside compound terms, aliased through clause heads; cycle check through compound terms",
+    "C15-4": "C15 generator: append with the tail variables bound (to [], to a list, through a chain ending in [])",
+    "C09-4": "C09 relation: a variable that occurs once replaced by $_ changes nothing but that variable's own binding (instance pairs)",
+    "C16-3": "C16 oracle: with a given output argument append succeeds exactly when a reference unifier unifies it with the concatenation",
+    "C19-5": "C19 term generator: floats below 1e-4; relation Display-then-parse for floats with a fractional part (new op show-parse)",
+    "C21-5": "C21 generator: non-ASCII rule texts in every legal layout (load = one by one is then decided on the implementation)",
+    "C21-6": "C21 generator: rule texts with # % // as ordinary text inside brackets, broken at every legal place",
+    # round 5 (changes that need inputs beyond the small shapes)
+    "C01-5": "C01 generator: integers above 2^53 that differ by one, floats that differ in the last place, in facts and comparisons",
+    "C01-6": "C01 generator: integers above 2^53 that differ by one, floats that differ in the last place, in facts and unifications",
+    "C02-5": "C02 generator: the cut as the 30th-45th goal of a body and under 28-45 nested conjunctions / disjunctions",
+    "C02-6": "C02 generator: searches in which a cut commits and its clause then fails 144 / 1296 times",
+    "C06-5": "C06 generator: floats that differ in the last place (alone, nested, through a bound variable)",
+    "C06-6": "C06 generator: variable ids congruent modulo 64 / 256 / 65536, alias chains closed by one more step",
+    "C10-5": "C10 generator: the public set_var_id in histories (ids cross 2^8 and 2^16 during a search), clause shapes with a failing head first, oracle: the counter is never below an id in use",
+    "C10-6": "C10 generator: long variable names that agree in their first 16 / 32 characters",
+    "C15-5": "C15, C16, C17 generators: lists spread over chains of up to 130 bound tail variables",
+    "C15-6": "C15 generator: parsed lists (parse_term / parse_linked_list) with integers beyond 2^53, with an oracle on the elements",
+    "C17-6": "C17 generator: tail variables whose ids collide modulo 64 / 256 / 65536",
+    "C19-6": "C19 goal generator: non-ASCII letters in functors and arguments of goals and rules",
 }
 
 def parse_log(path):
@@ -66,8 +87,12 @@ def main():
         else: raise SystemExit("unknown option " + args[0])
     def merged(spec):
         out = {}
-        for q in spec.split(","):          # later logs override earlier ones, seed by seed
-            out.update(parse_log(q))
+        for q in spec.split(","):          # later logs override earlier ones, seed by seed and field by field
+            for seed, e in parse_log(q).items():     # (a later checks-only re-run keeps the confirmation of the first run)
+                if seed not in out: out[seed] = e; continue
+                for k, v in e.items():
+                    if k == "checks": out[seed]["checks"].update(v)
+                    elif k != "lines": out[seed][k] = v
         return out
     logs = [merged(p) for p in args]
     final, earlier = logs[0], logs[1:]
@@ -107,6 +132,10 @@ def main():
             meta["first_run"] = dict(own="missed", others=first[1])
             meta["caught_by"]["own"] = "missed→" + own
             meta["strengthening"] = STRENGTHENED.get(name, "generator strengthened (see DESIGN.md section 10)")
+        elif first is not None and first[0] == "tie" and own == "violation":
+            meta["first_run"] = dict(own="tie", others=first[1])
+            meta["caught_by"]["own"] = "tie→violation"
+            meta["strengthening"] = STRENGTHENED.get(name, "oracle strengthened (see DESIGN.md section 10)")
         json.dump(meta, open(os.path.join(d, "meta.json"), "w"), indent=1)
         n += 1
     print("stored", n, "seeds")
